@@ -42,6 +42,9 @@ var Families = map[string]func(t *testing.T, seed int64, steps int) *Cluster{
 	"notifyshort": famNotifyShort,
 	"fastpathrace": famFastPathRace,
 	"xferisolated": famXferIsolated,
+	"stalledleader": famStalledLeader,
+	"restorebacklog": famRestoreBacklog,
+	"ctcrash":     famCTCrash,
 	"transferstuck": famTransferStuck, // not in any plan: kept as a scenario, the defect it was written for needs a rarer trigger (see DESIGN 7.16)
 }
 
@@ -171,6 +174,7 @@ func famRestart(t *testing.T, seed int64, steps int) *Cluster {
 	opt.MaxAppend = 1 + int(seed%3)
 	opt.Mono = seed%4 == 1
 	opt.CommitTrack = seed%4 >= 2
+	opt.CTEager = seed%8 >= 6
 	c := NewCluster(t, opt)
 	c.Bootstrap()
 	c.StartAll()
@@ -367,6 +371,7 @@ func famNotify(t *testing.T, seed int64, steps int) *Cluster {
 func famRestore(t *testing.T, seed int64, steps int) *Cluster {
 	opt := DefaultOptions(seed)
 	opt.Family = "restore"
+	opt.BatchFSM = seed%2 == 1
 	opt.Mono = seed%2 == 0
 	opt.MaxAppend = 1 + int(seed%3)
 	opt.Trailing = uint64(seed % 3)
@@ -410,6 +415,7 @@ func famElect(t *testing.T, seed int64, steps int) *Cluster {
 func famSnap(t *testing.T, seed int64, steps int) *Cluster {
 	opt := DefaultOptions(seed)
 	opt.Family = "snap"
+	opt.BatchFSM = seed%3 == 1 // the FSM implements BatchingFSM
 	opt.Pipeline = seed%4 == 1
 	opt.HBFast = seed%3 == 2
 	opt.SnapThresh = uint64(2 + seed%4)
